@@ -40,11 +40,17 @@ Use: 'use' target=[Elem:FQN] ';';
 FQN: ID('.'ID)*;
 """,
 }
+# C: grammar A with user-supplied Python classes for Package and Class (their attributes live in
+# _tx_obj_attrs while the model is being built, i.e. while references are resolved)
+GRAMMARS["C"] = GRAMMARS["A"]
+USER_CLASSES = {"C": ["Package", "Class"]}
+LAYOUT = {"A": "A", "B": "B", "C": "A"}
 # containment slots in declaration (= textual = pre-order) order
 SLOTS = {
     "A": {"Model": ["elems", "refs"], "Package": ["main", "elems", "refs"], "Class": ["members"], "Alias": [], "Use": []},
     "B": {"Model": ["elems", "refs"], "Package": ["elems", "refs", "main"], "Class": ["members"], "Alias": [], "Use": []},
 }
+SLOTS["C"] = SLOTS["A"]
 NAMES = ["a", "b", "c", "p", "q", "x1"]
 REF_T = {"base": "Class", "owner": "Class", "uses": "Elem", "target": "Elem"}
 
@@ -206,7 +212,7 @@ def render(nodes, gid, override=None):
         elif n.kind == "Package":
             w(pad + "package " + n.name)
             o = refs_of(n, "owner")
-            if gid == "A" and o:
+            if LAYOUT[gid] == "A" and o:
                 w(" owner ")
                 ref(n, "owner", 0, o[0])
             w(" {\n")
@@ -216,14 +222,14 @@ def render(nodes, gid, override=None):
                         w(pad + "  main\n")
                     emit(c, ind + 1)
             w(pad + "}")
-            if gid == "B" and o:
+            if LAYOUT[gid] == "B" and o:
                 w(" owner ")
                 ref(n, "owner", 0, o[0])
             w("\n")
         elif n.kind == "Class":
             w(pad + "class " + n.name)
             mem = n.kids.get("members", [])
-            if gid == "A":
+            if LAYOUT[gid] == "A":
                 cls_refs(n)
                 if mem:
                     w(" {\n")
@@ -407,7 +413,7 @@ MALFORMED = ["", ".", "a.", ".a", "a..b", "zz", "a.zz", "zz.a", "parent", "a.par
 
 
 def gen_case(r, idx, thorough):
-    gid = "A" if r.chance(0.6) else "B"
+    gid = r.weighted([("A", 5), ("B", 3), ("C", 2)])
     pool = r.sample(NAMES, r.weighted([(2, 3), (3, 4), (4, 2)]))
     unique = r.chance(0.8)
     nodes = gen_tree(r.split("t"), gid, pool, unique, r.range(4, 16))
@@ -563,7 +569,7 @@ def run(chk):
     ph["prove"] = round(time.time() - t0, 1)
     t0 = time.time()
     thorough = chk.thorough
-    n_trees = 400 if thorough else 64
+    n_trees = 600 if thorough else 64
     cases = []
     for c in load_corpus():
         cases.append({"gid": c["gid"], "text": c["text"], "referrers": c["referrers"], "names": c["names"], "probes": c.get("e2e", []),
@@ -575,7 +581,7 @@ def run(chk):
     chunks = [c for c in chunks if c]
 
     def payload(chunk, with_queries):
-        return {"grammars": GRAMMARS, "classes": CLASSES,
+        return {"grammars": GRAMMARS, "classes": CLASSES, "user_classes": USER_CLASSES,
                 "cases": [{"gid": c["gid"], "text": c["text"], "queries": queries_of(c) if with_queries else [],
                            "e2e": [{"text": p["text"], "holder": p["holder"], "attr": p["attr"], "index": p.get("index", 0)}
                                    for p in c.get("probes", [])] if with_queries else []} for c in chunk]}
@@ -705,7 +711,7 @@ def run(chk):
                              "what": "parsing gives %s for reference %r of object %d; the containment chains give %s" % (ia, p["probe"], p["holder"], want)})
     chk.stat("queries whose answer a walk through parent/reference attributes would change", n_sens)
     chk.cov["disagreements_checked"] = sum(len(c["queries"]) + len(c["probes"]) for c in live)
-    chk.cov["rule"] = ("generated models of nested packages/classes (two grammars with different attribute orders; single and list containment; "
+    chk.cov["rule"] = ("generated models of nested packages/classes (grammars A/B with different attribute orders, C = A with user classes; single and list containment; "
                        "named non-target objects (alias) and unnamed ones (use); 2-4 names reused at all depths; ~20% trees with duplicate sibling names; "
                        "resolved base/uses/owner/target references) parsed by textX with the FQN provider; per tree the provider is called directly from the root, the "
                        "deepest objects and random objects with every 1-2 part name over the names present, 3-part names, existing long paths, names obtained by walking parent and "
@@ -727,12 +733,12 @@ def replay(rep):
     if not isinstance(case, dict) or "text" not in case:
         return 0
     if case.get("kind") == "direct provider call":
-        pl = {"grammars": GRAMMARS, "classes": CLASSES, "cases": [{"gid": case["grammar"], "text": case["text"],
+        pl = {"grammars": GRAMMARS, "classes": CLASSES, "user_classes": USER_CLASSES, "cases": [{"gid": case["grammar"], "text": case["text"],
               "queries": [[case["referrer"], case["name"], case["target_class"]]], "e2e": []}]}
         out = core.run_impl("c10", pl)[0]
         print("implementation now answers:", out["answers"] or out["error"])
     else:
-        pl = {"grammars": GRAMMARS, "classes": CLASSES, "cases": [{"gid": case["grammar"], "text": case["text"], "queries": [], "e2e": []}]}
+        pl = {"grammars": GRAMMARS, "classes": CLASSES, "user_classes": USER_CLASSES, "cases": [{"gid": case["grammar"], "text": case["text"], "queries": [], "e2e": []}]}
         out = core.run_impl("c10", pl)[0]
         print("implementation now:", "parsed" if out["dump"] is not None else out["error"])
     return 0
